@@ -80,7 +80,7 @@ func c12Scenarios() []concScenario {
 func TestC12(t *testing.T) {
 	run := rep.Start("C12", "model_checking")
 	defer run.Finish(t)
-	runConc(t, run, c12Scenarios(), 3*time.Minute, 60*time.Minute)
+	runConc(t, run, c12Scenarios(), 3*time.Minute, 45*time.Minute)
 	run.Assume("clients are separate lake handles on one storage engine, each with its own caches, as separate processes are")
 	run.Assume("scheduling points are the storage operations (every engine call; under file semantics also every Write call and every Read of an in-place-rewritten path); code between two storage operations of a client runs atomically")
 	run.Assume("the sequential specification is the real code run one operation at a time in every order consistent with program order")
